@@ -165,12 +165,39 @@ def make_items(ctx: Ctx, count: int, start: int):
     return items
 
 
+def corpus_docs() -> list[tuple[str, dict]]:
+    """The repository's bundled specifications (thorough tier): real-world shapes the grammar does not produce."""
+    import glob
+    import yaml
+
+    out = []
+    for pat in ("input/*.json", "tests/specs/*.yaml", "tests/generation_issues/specs/*.json", "tests/generation_issues/specs/*.yaml"):
+        for f in sorted(glob.glob(str(common.REPO_ROOT / pat))):
+            try:
+                txt = Path(f).read_text()
+                doc = json.loads(txt) if f.endswith(".json") else yaml.safe_load(txt)
+            except Exception:
+                continue
+            if isinstance(doc, dict) and "paths" in doc:
+                out.append((Path(f).name, doc))
+    return out
+
+
 def run_shard(ctx: Ctx) -> None:
     common.use_repo()
     total = 40 if ctx.quick else 1200
     bs = 10
     for b in range(0, total, bs):
         run_batch(ctx, make_items(ctx, bs, ctx.shard * 100000 + b))
+    if not ctx.quick:
+        docs = corpus_docs()
+        for i, (name, doc) in enumerate(docs):
+            if ctx.mine(i):
+                d = specgen.Doc(doc, {"x": 1, "y": 2}, [{}], {"corpus"})
+                ctx.rec.count("corpus_documents")
+                ctx.rec.seen("corpus_files", name)
+                run_batch(ctx, [{"doc": d, "layout": i % len(LAYOUTS), "strategy": STRATEGIES[i % 3], "n": 900000 + ctx.shard * 100 + i,
+                                 "trigger": {"corpus"}}])
 
 
 def finalize(m: dict, tier: str, seed: int) -> None:
